@@ -197,9 +197,9 @@ theorem collectArgs_heading (T : PTables) (mac : MacroDef) (lb rb : Tok) (body :
     collectArgs T mac ['*', 'O', 'A'] 0 (lb :: (body ++ rb :: rest)) start {} st
       = .ok (({ args := [[], optDflt mac lb.pos, body], extr := [[], [], body], langs := [] }, rest),
              st) := by
-  have h0 : txtIs lb "*" = false := by simp [txtIs, hlb.txt]
-  have h1 : txtIs lb "[" = false := by simp [txtIs, hlb.txt]
-  have h2 : txtIs lb "}" = false := by simp [txtIs, hlb.txt]
+  have h0 : txtIsNV lb "*" = false := by simp [txtIsNV, hlb.txt]
+  have h1 : txtIsNV lb "[" = false := by simp [txtIsNV, hlb.txt]
+  have h2 : txtIsNV lb "}" = false := by simp [txtIsNV, hlb.txt]
   simp only [collectArgs, skipSpace_brace lb _ hlb, skippedLangs_brace lb _ hlb, List.head?_cons,
     h0, h1, h2, show ('*' == '*') = true by decide,
     show ('O' == '*') = false by decide, show ('O' == 'O') = true by decide,
@@ -242,8 +242,8 @@ theorem expandMacro_heading (T : PTables) (fuel : Nat) (mac : MacroDef) (hd lb r
     expandMacro T fuel (lb :: (body ++ rb :: rest)) hd false st
       = .ok ((mkAction hd.pos :: (body ++ dotToks T (getTxtPos body).1 l.pos), rest), st) := by
   obtain ⟨f, rfl⟩ : ∃ f, fuel = f + 1 := ⟨fuel - 1, by omega⟩
-  have hsk : skipSpaceStopLang (lb :: (body ++ rb :: rest)) = lb :: (body ++ rb :: rest) := by
-    simp [skipSpaceStopLang, hlb.notSpace]
+  have hsk : skipSpaceStopLangAct (lb :: (body ++ rb :: rest)) = lb :: (body ++ rb :: rest) := by
+    simp [skipSpaceStopLangAct, hlb.notSpace]
   rw [expandMacro.eq_2]
   show M.bind' M.get _ st = _
   simp only [M.bind', M.get, hmac, hsk]
